@@ -17,8 +17,12 @@ import (
 	"encoding/hex"
 	"fmt"
 	"io"
+	"os"
+	"os/exec"
+	"path/filepath"
 	"sort"
 	"strings"
+	"syscall"
 	"testing/iotest"
 	"time"
 
@@ -115,6 +119,33 @@ func runCodec(c *Ctx) {
 	c.Stats.Rule = "index states reached by random insert/remove histories (dims 1-4, M in {1,2,3,16}, levels 0-3, 3 metrics, metadata: nil/empty/many keys/255-byte key/65535-byte value/non-UTF8), saved with and without header; each saved stream is model-decoded and loaded back through 5 reader kinds into fresh and used targets; non-trivial = state with removals and a tombstoned link target, an entry hand-over, exotic metadata, or the empty state after use; distinct = distinct history"
 	rng := NewRng(c.Seed)
 	nStates := c.ArgInt("states", c.Pick(120, 2500))
+	// corpus: metadata beyond the format's length fields (D5). The key length is written as a
+	// uint8 and the value length as a uint16 while the full bytes follow, so the stream
+	// desynchronises. Recorded as a known finding; any *other* failure is still reported.
+	for _, w := range []struct {
+		name string
+		md   index.Metadata
+	}{
+		{"key-300-bytes", index.Metadata{strings.Repeat("k", 300): "v"}},
+		{"value-70000-bytes", index.Metadata{"k": strings.Repeat("v", 70000)}},
+	} {
+		c.Begin("corpus-D5-" + w.name)
+		sp, _ := newSpace(0)
+		h := index.NewHnsw(2, sp)
+		h.Insert(rid(1), amath.Vector{1, 2}, w.md, 0)
+		h.Insert(rid(2), amath.Vector{3, 4}, nil, 0)
+		c.OpLocal("insert id 1 with metadata %s; insert id 2; save; load", w.name)
+		var buf bytes.Buffer
+		h.Save(&buf, false)
+		// the Load runs in a child process with an address-space limit: a desynchronised stream can
+		// make Load allocate by a garbage count, which the Go runtime answers with an unrecoverable
+		// "out of memory" fatal error
+		res := childLoad(c, buf.Bytes(), 2, false, codecView(h.VerifDump()))
+		if res != "same" {
+			c.Violate("C08", "C08/metadata-length-truncation", fmt.Sprintf("an item with %s is accepted, but the snapshot of that state cannot be loaded back (%s): length fields truncate", w.name, res), c.History())
+		}
+		c.End()
+	}
 	for s := 0; s < nStates; s++ {
 		r := rng.Fork()
 		dim := 1 + r.Intn(4)
@@ -270,5 +301,58 @@ func runCodec(c *Ctx) {
 			}
 		}
 		c.End()
+	}
+}
+
+// childLoad loads a snapshot in a child process (address space limited to 12 GiB, 60 s) and
+// compares the resulting view with `want`: "same", "differs", "error: ...", or "process died: ...".
+func childLoad(c *Ctx, data []byte, dim int, header bool, want []string) string {
+	f := filepath.Join(c.Out, fmt.Sprintf("child-%d.bin", len(data)))
+	os.WriteFile(f, data, 0644)
+	defer os.Remove(f)
+	cmd := exec.Command(os.Args[0], "child", "-seed", "0", "load", f, fmt.Sprint(dim), fmt.Sprint(b2i(header)))
+	var out, errb bytes.Buffer
+	cmd.Stdout, cmd.Stderr = &out, &errb
+	if err := cmd.Start(); err != nil {
+		return "error: cannot start child: " + err.Error()
+	}
+	done := make(chan error, 1)
+	go func() { done <- cmd.Wait() }()
+	select {
+	case err := <-done:
+		if err != nil {
+			first := strings.SplitN(errb.String(), "\n", 2)[0]
+			return "process died: " + first
+		}
+	case <-time.After(60 * time.Second):
+		cmd.Process.Kill()
+		return "process stalled for 60 s"
+	}
+	got := strings.TrimSpace(out.String())
+	if strings.HasPrefix(got, "error") {
+		return got
+	}
+	if got == strings.Join(want, "\n") {
+		return "same"
+	}
+	return "differs"
+}
+
+func init() {
+	childHandlers["load"] = func(args []string) {
+		var lim syscall.Rlimit
+		lim.Cur, lim.Max = 12<<30, 12<<30
+		syscall.Setrlimit(syscall.RLIMIT_AS, &lim)
+		data, _ := os.ReadFile(args[0])
+		var dim, hdr int
+		fmt.Sscan(args[1], &dim)
+		fmt.Sscan(args[2], &hdr)
+		sp, _ := newSpace(0)
+		h := index.NewHnsw(uint(dim), sp)
+		if err := h.Load(bytes.NewReader(data), hdr == 1); err != nil {
+			fmt.Println("error: " + err.Error())
+			return
+		}
+		fmt.Println(strings.Join(codecView(h.VerifDump()), "\n"))
 	}
 }
